@@ -480,6 +480,11 @@ impl Session {
             // *Request* carries no sequence number, so the responder correctly
             // expects our first data segment at seq 0.)
             self.recv_window.ack_seq = 0;
+            // ... and like any other segment it occupies a slot of our window until we
+            // acknowledge it: the peer is waiting for that ACK
+            self.recv_window.level = window_size.saturating_sub(1);
+            self.recv_window.ack_level = 1;
+            self.recv_window.received_at = Instant::now();
         }
     }
 
